@@ -108,6 +108,10 @@ func alterCatalogue() []aent {
 		if es[i].label == "AKu" || es[i].label == "AKu2" {
 			es[i].irr = map[string]bool{"mysql": true, "postgres": true}
 		}
+		if es[i].label == "ATC" {
+			// MySQL: no statement restores the previous (implicit) value of an added table attribute
+			es[i].irr = map[string]bool{"mysql": true}
+		}
 	}
 	// PostgreSQL: ALTER COLUMN c5 DROP EXPRESSION (the generation expression cannot be restored)
 	es = append(es, aent{label: "MCg", only: "postgres", irr: map[string]bool{"postgres": true},
@@ -265,6 +269,8 @@ func runAlterCase(w *out.W, id, dialect string, ents []aent) {
 					irr = sc.C.Name == ""
 				case *schema.ModifyColumn:
 					irr = dialect == "postgres" && sc.Change.Is(schema.ChangeGenerated)
+				case *schema.AddAttr, *schema.DropAttr:
+					irr = dialect == "mysql"
 				}
 				if irr {
 					w.Violation(id, "alter-irreversible-member-reversed", fmt.Sprintf("%T of the ALTER cannot be reversed, yet the change has a reverse: Cmd %q reverse %q | %s", sc, trunc(c.Cmd, 300), revs[i], desc))
